@@ -181,6 +181,33 @@ func producerOracle(m *MsgDesc, steps [][2]string) string {
 
 func suiteC18(c *Ctx) []Suite {
 	return []Suite{
+		{Name: "producers/fill-against-ascii-bounds", Gen: func(c *Ctx) []Case {
+			// FillVariables on a message refuses exactly the strings the variable's bounds exclude,
+			// at every depth and in the copies an ellipsis makes; a refused call changes nothing
+			var out []Case
+			for _, bd := range [][2]int{{0, -1}, {2, -1}, {4, -1}, {3, 3}, {1, 4}, {0, 2}, {0, 0}} {
+				for shape := 0; shape < 3; shape++ {
+					for n := 0; n <= 6; n++ {
+						av := &Node{Kind: "AV", Name: "id", Min: bd[0], Max: bd[1]}
+						item, key := av, "id"
+						var pre []string
+						switch shape {
+						case 1:
+							item = &Node{Kind: "L", Slots: []Slot{{Child: &Node{Kind: "L", Slots: []Slot{{Child: av}, {Child: &Node{Kind: "U", W: 2, Slots: []Slot{{U: 7}}}}}}}}}
+						case 2:
+							item = &Node{Kind: "L", Slots: []Slot{{Child: av}, {IsVar: true, Name: "...[0]"}}}
+							pre, key = []string{"fill 1 " + hxs("...[0]") + " " + sintTok(0, 1)}, "id[1]"
+						}
+						m := genMsgDesc(c.R, item, 0)
+						steps := append([]string{m.newStep()}, pre...)
+						steps = append(steps, "fill 1 "+hxs(key)+" "+strTok(strings.Repeat("s", n)), "wait 0", "sess 9 00000001")
+						out = append(out, Case{Op: "mprog " + strings.Join(steps, " | "), Decisive: true, Nontrivial: true,
+							Tags: []string{fmt.Sprintf("bounds:%d..%d len:%d", bd[0], bd[1], n)}})
+					}
+				}
+			}
+			return out
+		}},
 		{Name: "producers/sequences", Gen: func(c *Ctx) []Case {
 			var out []Case
 			for i := 0; i < c.N(2500); i++ {
@@ -212,6 +239,7 @@ func suiteC18(c *Ctx) []Suite {
 				}
 				ops := []string{m.newStep()}
 				var steps [][2]string
+				lastSid, lastSys := 0, []byte(nil)
 				for k := 0; k < n; k++ {
 					if x := c.R.Intn(5); x == 0 {
 						// FillVariables: fill one variable of the item (if any) with a rename, or an unknown key
@@ -219,9 +247,13 @@ func suiteC18(c *Ctx) []Suite {
 						collectVars(item, &vars)
 						key, val := "nokey", sintTok(0, 1)
 						if len(vars) > 0 && c.R.Intn(4) > 0 {
-							key, val = vars[c.R.Intn(len(vars))].name, strTok(fmt.Sprintf("ren%d_%d", i, k))
+							v := vars[c.R.Intn(len(vars))]
+							key, val = v.name, strTok(fmt.Sprintf("ren%d_%d", i, k))
 							if strings.HasPrefix(key, "...") {
 								val = sintTok(0, 1)
+							} else if v.node.Kind == "AV" {
+								// strings of every length against the variable's bounds
+								val = strTok(strings.Repeat("s", pick(c.R, 0, 1, 2, 3, 5, 9)))
 							}
 						}
 						a := "1 " + hxs(key) + " " + val
@@ -238,6 +270,13 @@ func suiteC18(c *Ctx) []Suite {
 						}
 						sys := make([]byte, pick(c.R, 4, 4, 4, 4, 0, 1, 3, 5, 8))
 						c.R.Read(sys)
+						if lastSys != nil && c.R.Intn(4) == 0 {
+							// the same session id again, with a prefix of the bytes stamped before
+							sid, sys = lastSid, append([]byte{}, lastSys[:c.R.Intn(len(lastSys)+1)]...)
+						}
+						if sid >= -1 && sid <= 65535 {
+							lastSid, lastSys = sid, pad4(sys)
+						}
 						a := fmt.Sprintf("%d %s", sid, hx(sys))
 						ops = append(ops, "sess "+a)
 						steps = append(steps, [2]string{"sess", a})
@@ -430,6 +469,18 @@ func suiteC12(c *Ctx) []Suite {
 					out = append(out, Case{Op: fmt.Sprintf("ctor float %d 1 f32:%d", w, b), Decisive: true, Nontrivial: true, Tags: []string{"grid:float32"}}.fields(itemKeys))
 				}
 			}
+			// Go values of the wrong kind for a factory: whole-number floats for integers, integers
+			// for booleans, booleans for numbers
+			for _, w := range []int{1, 2, 4, 8} {
+				for _, tok := range []string{"f64:4607182418800017408", "f64:4895412794951729152", "f64:9218868437227405312", "f32:1065353216", "b:1", "f64:0", "f64:4890909195324358656"} {
+					for _, kind := range []string{"int", "uint"} {
+						out = append(out, Case{Op: fmt.Sprintf("ctor %s %d 1 %s", kind, w, tok), Decisive: true, Nontrivial: true, Tags: []string{"grid:wrong-go-type"}}.fields(itemKeys))
+					}
+				}
+			}
+			for _, tok := range []string{"i:0:1", "u:8:0", "f64:0", "s:" + hxs("T")} {
+				out = append(out, Case{Op: "ctor boolean 1 " + tok, Decisive: true, Nontrivial: true, Tags: []string{"grid:wrong-go-type"}}.fields(itemKeys))
+			}
 			for _, s := range binStrings {
 				out = append(out, Case{Op: "ctor binary 1 " + strTok(s), Decisive: true, Nontrivial: true, Tags: []string{"grid:binstr"}}.fields(itemKeys))
 			}
@@ -512,7 +563,18 @@ func suiteC12(c *Ctx) []Suite {
 					"ctrl linktestreq " + hx(sys),
 					fmt.Sprintf("ctrl separatereq %d %s", sid, hx(sys)),
 					fmt.Sprintf("ctrl rejectreq %d %d %d %s %d", sid, c.R.Intn(256), c.R.Intn(256), hx(sys), c.R.Intn(256)),
-				}[c.R.Intn(6)]
+					fmt.Sprintf("ctrl selectrsp %s %d", hx(hdr), c.R.Intn(256)),
+					fmt.Sprintf("ctrl deselectrsp %s %d", hx(hdr), c.R.Intn(256)),
+					"ctrl linktestrsp " + hx(hdr),
+				}[c.R.Intn(9)]
+				if len(hdr) == 10 && c.R.Intn(2) == 0 {
+					// a request of the right kind as it may come from the wire (any byte 2 and 3)
+					hdr[4], hdr[5] = 0, []byte{1, 3, 5}[c.R.Intn(3)]
+					op = fmt.Sprintf("ctrl %s %s %d", map[byte]string{1: "selectrsp", 3: "deselectrsp", 5: "linktestrsp"}[hdr[5]], hx(hdr), c.R.Intn(256))
+					if hdr[5] == 5 {
+						op = "ctrl linktestrsp " + hx(hdr)
+					}
+				}
 				out = append(out, Case{Op: op, Decisive: true, Nontrivial: true, Tags: []string{"ctrl-ctor"}})
 			}
 			return out
@@ -635,6 +697,46 @@ func varsOracle(n *Node, it ast.ItemNode) string {
 
 func suiteC16(c *Ctx) []Suite {
 	return []Suite{
+		{Name: "vars/filled-at-the-size-limit", Gen: func(c *Ctx) []Case {
+			// whatever a fill returns, it encodes iff it lists no variable - also when the value
+			// filled in is as long as an item can be, or one byte longer (judged on the real code)
+			var out []Case
+			for _, n := range []int{16777215, 16777216} {
+				for _, shape := range []string{"item", "nested", "message"} {
+					res := ""
+					val := map[string]interface{}{"v": strings.Repeat("k", n)}
+					safely(func() {
+						var tmpl ast.ItemNode = ast.NewASCIINodeVariable("v", 0, -1)
+						if shape != "item" {
+							tmpl = ast.NewListNode(ast.NewUintNode(2, 9), ast.NewListNode(tmpl))
+						}
+						nv, nb := 0, 0
+						if shape == "message" {
+							m := ast.NewHSMSDataMessage("M", 1, 1, 1, "H->E", tmpl, 7, []byte{0, 0, 0, 1})
+							var got *ast.DataMessage
+							if pan, _ := safely(func() { got = m.FillVariables(val) }); pan {
+								return
+							}
+							nv, nb = len(got.Variables()), len(got.ToBytes())
+							if nv == 0 && nb > 0 && nb < n {
+								res = fmt.Sprintf("a message filled with %d characters lists no variable and encodes to %d bytes: its text is missing", n, nb)
+							}
+						} else {
+							var got ast.ItemNode
+							if pan, _ := safely(func() { got = tmpl.FillVariables(val) }); pan {
+								return
+							}
+							nv, nb = len(got.Variables()), len(got.ToBytes())
+						}
+						if res == "" && (nv == 0) != (nb > 0) {
+							res = fmt.Sprintf("filled with %d characters: %d variables listed, encodes to %d bytes", n, nv, nb)
+						}
+					})
+					out = append(out, Case{Detail: fmt.Sprintf("ASCII variable (%s) filled with %d characters", shape, n), Oracle: res, Nontrivial: true, Tags: []string{"filled-at-limit"}})
+				}
+			}
+			return out
+		}},
 		{Name: "vars/items", Gen: func(c *Ctx) []Case {
 			var out []Case
 			for i := 0; i < c.N(4000); i++ {
